@@ -42,6 +42,10 @@ func (p Params) Validate() error {
 		return fmt.Errorf("fee must be positive and less than 1: %s", p.Fee.String())
 	}
 
+	if err := p.PoolCreationFee.Validate(); err != nil {
+		return fmt.Errorf("invalid poolCreationFee: %w", err)
+	}
+
 	if !p.PoolCreationFee.IsPositive() {
 		return fmt.Errorf("poolCreationFee must be positive: %s", p.PoolCreationFee.String())
 	}
